@@ -56,7 +56,7 @@ class DictWorld(HistoryWorld):
             w, mask = self.subsets[run_index]
             return {'n': w, 'mask': mask, 'vk': ['u16', 'coins', 'cell'][run_index % 3], 'exh': True}
         n = rng.choice([1, 2, 3, 4, 5, 7, 8, 9, 16, 31, 32, 33, 64, 255, 256, 257, 267, 512, 1000, 1023, rng.randint(1, 1023)])
-        return {'n': n, 'vk': rng.choice(['u16', 'u16', 'coins', 'cell', 'i8', 'u1', 'addr', 'ref3']), 'steps': rng.choice([4, 8, 16, 40]), 'kser': rng.random() < 0.12}
+        return {'n': n, 'vk': rng.choice(['u16', 'u16', 'coins', 'cell', 'i8', 'u1', 'addr', 'ref3', 'addr_any']), 'mirror': rng.random() < 0.5, 'steps': rng.choice([4, 8, 16, 40]), 'kser': rng.random() < 0.12}
 
     def new_state(self, ctx):
         st = St()
@@ -78,7 +78,7 @@ class DictWorld(HistoryWorld):
         else:
             h = HashMap(st.n)
         vk = st.vk
-        if vk == 'addr':
+        if vk in ('addr', 'addr_any'):
             h.with_address_values()
         elif vk == 'ref3':
             h.value_serializer = lambda src, dest: dest.store_uint(src & 7, 3).store_ref(Builder().store_uint(src, 16).end_cell())
@@ -92,7 +92,20 @@ class DictWorld(HistoryWorld):
             h.with_coins_values()
         return h
 
+    ANY = [None, (3, 5), (3, 2), (1, 1)]
+
+    def _any_addr(self, wc, acc, anycast):
+        a = Address((wc, acc))
+        if anycast is not None:
+            a.set_anycast(*anycast)
+        return a
+
     def _lib_value(self, st, v):
+        if st.vk == 'addr_any':
+            # addresses of few accounts, with and without anycast info: values that compare equal (Address.__eq__ looks at workchain
+            # and account only) and are nevertheless different values with different encodings
+            n = self._norm(st, v)
+            return self._any_addr(n[1], n[2], n[3])
         if st.vk == 'addr':
             return Address(((v & 0xFF) - 128, hashlib.sha256(b'%d' % v).digest()))
         if st.vk == 'cell':
@@ -104,6 +117,8 @@ class DictWorld(HistoryWorld):
         return v
 
     def _norm(self, st, v):
+        if st.vk == 'addr_any':
+            return ('addr', ((v >> 2) & 3) - 1, hashlib.sha256(b'%d' % ((v >> 2) & 7)).digest(), self.ANY[v & 3])
         if st.vk == 'addr':
             return ('addr', (v & 0xFF) - 128, hashlib.sha256(b'%d' % v).digest())
         if st.vk == 'ref3':
@@ -118,6 +133,8 @@ class DictWorld(HistoryWorld):
 
     def _vbits(self, st, v):
         vk = st.vk
+        if vk == 'addr_any':
+            return tlb.enc_addr_std(v[1], v[2], v[3])
         if vk == 'addr':     # v is the normalised model value
             return tlb.enc_addr_std(v[1], v[2], None)
         if vk == 'ref3':
@@ -132,6 +149,12 @@ class DictWorld(HistoryWorld):
 
     def _deser(self, st):
         vk = st.vk
+        if vk == 'addr_any':
+            def dza(s):
+                a = s.load_address()
+                any_ = None if a.anycast is None else (a.anycast.depth, a.anycast.rewrite_pfx)
+                return ('addr', a.wc, bytes(a.hash_part), any_)
+            return dza
         if vk == 'addr':
             def dz(s):
                 a = s.load_address()
@@ -194,6 +217,14 @@ class DictWorld(HistoryWorld):
             if form == 'address':
                 op['wc'] = rng.randint(-128, 127)
                 op['acc'] = bytes(rng.getrandbits(8) for _ in range(32)).hex()
+            if st.vk == 'addr_any' and ctx.cfg.get('mirror') and form in ('int', 'bytes', 'bits'):
+                # both halves of the dictionary hold the same keys below the first bit, with values that are EQUAL as Python objects
+                # (same account) and differ in anycast: two subtrees that look alike and are not
+                op['form'] = 'int'
+                op['v'] = rng.getrandbits(5)
+                twin = dict(op, key=key ^ (1 << (n - 1)), v=(op['v'] & ~3) | ((op['v'] + 1 + rng.randrange(3)) & 3))
+                st.queue.append(twin)
+                ctx.probe('mirrored-subtrees-with-equal-comparing-values')
             return op
         if r < 0.74:
             kind = rng.choice(['too_large', 'too_large_by_one', 'negative', 'negative_big', 'long_bits', 'long_bytes', 'negative_bits_exact', 'negative_bits_short', 'negative_bits_full'])
@@ -348,6 +379,8 @@ class DictWorld(HistoryWorld):
         return ()
 
     def _lib_value_norm(self, st, v):
+        if st.vk == 'addr_any':
+            return self._any_addr(v[1], v[2], v[3])
         if st.vk == 'addr':
             return Address((v[1], v[2]))
         if st.vk == 'ref3':
